@@ -30,6 +30,8 @@ def cases(tier, seed):
     yield dict(kind="learner-callable")
     for k in (1, 2, 3):
         yield dict(kind="stacking", k=k)
+    for order in ("int-first", "float-first"):
+        yield dict(kind="stacking-mixed", order=order)
 
 
 def data(kind):
@@ -66,6 +68,21 @@ def check(c):
                   DecisionTreeClassifier(random_state=0).fit(X, y).predict_proba(X)][:c["k"]]
         if not numpy.allclose(st.transform(X), numpy.hstack(direct), rtol=0, atol=1e-12):
             return dict(**{"class": "stacking-concat"}, what="transform is not the column concatenation of the members' outputs")
+        return None
+    if c["kind"] == "stacking-mixed":
+        # members whose outputs have different dtypes (integer class labels, real-valued predictions): the concatenation keeps every value
+        from sklearn.linear_model import LinearRegression
+        from sklearn.tree import DecisionTreeClassifier
+        X, y, _, _ = data("clf")
+        mk = [lambda: DecisionTreeClassifier(random_state=0, max_depth=2), lambda: LinearRegression()]
+        if c["order"] == "float-first":
+            mk.reverse()
+        st = SkBaseTransformStacking([f() for f in mk], "predict")
+        st.fit(X, y)
+        direct = [f().fit(X, y).predict(X).reshape(len(X), -1) for f in mk]
+        out = st.transform(X)
+        if out.shape != (len(X), 2) or not numpy.allclose(out, numpy.hstack(direct), rtol=0, atol=1e-12):
+            return dict(**{"class": "stacking-concat"}, what="members of different dtypes (%s): transform is not the column concatenation of their outputs" % c["order"])
         return None
     factory, _, kind = models()[c["model"]]
     X, y, X2, y2 = data(kind)
